@@ -102,7 +102,7 @@ func (g *pgen) pick(n int, w string) int { return rapid.IntRange(0, n-1).Draw(g.
 func (g *pgen) k() zn.Expr               { g.n++; return &zn.Num{Val: float64(g.n)} }
 
 var mainNames = []string{"A", "B", "C"}
-var anyNames = []string{"A", "B", "C", "A", "B", "X", "Y", "R", "F1", "K1", "真", "显示", "异常"}
+var anyNames = []string{"A", "B", "C", "A", "B", "X", "Y", "R", "F1", "K1", "真", "显示", "异常", "丗亲", "僿勀", "一丟", "丁一"} // (the last four: two pairs of zn.HashTwins)
 
 func show(tag string, es ...zn.Expr) zn.Stmt {
 	return &zn.ExprStmt{E: &zn.Call{Name: "显示", Args: append([]zn.Expr{&zn.Str{V: tag}}, es...)}}
